@@ -149,3 +149,11 @@ reg("C12", "^TestC12$", q=(120, 4, 900), t=(800, 16, 3600), batch=60,
          "the bridge leaf to the MER, or to the LER and on to the RER, of the requested L1 info leaf; a returned index must cover the bridge.",
     note="Trusted: ref.VerifyProof/Frontier/Sparse; world generator keeps the contracts' 'every verification is followed by an info update' discipline.",
     design="§3 C12")
+
+reg("C06", "^TestC06$", q=(25, 4, 1500), t=(600, 16, 7200), batch=25,
+    technique="property-based testing: rapid-generated chains and fork operations bound to RPC-count triggers (plus restarts) through the real reorg detector + public l1infotreesync.New on a scripted chain; oracle = convergence to the reference of the final canonical chain at harness-detected quiescence + rewind bounds read from the detector's reorg_event table",
+    text="Exploration: the real reorg detector, downloader, driver and L1 info processor follow a scripted chain that forks above the "
+         "finalized frontier at generated moments; when the chain stops changing and the node is idle its leaves must be those of "
+         "the canonical chain; isolated forks of delivered blocks must produce a rewind at or before the first replaced block; no rewind without a replaced delivered block.",
+    note="Trusted: fakechain; quiescence = >=30 tip polls and >=3 detector sweeps without a log query; 'idle and different' for 3 s is a violation, a 20 s cap is inconclusive. The Go scheduler inside the node is not controlled (races R1/R2 of DESIGN §5 are out of reach).",
+    design="§3 C06")
